@@ -146,28 +146,64 @@ def to_second_order(b, rng, prob=1.0):
     b.cells = new
 
 
-def label(b, rng, id_mode, shuffle_nodes=True, shuffle_elems=True, n_unref=0, block_order=None):
-    """assign ids and storage orders -> mesh dict"""
-    n = len(b.coords)
+ORDERS = ['shuffled', 'shuffled', 'shuffled', 'sorted', 'ends-fixed', 'swap2', 'move1', 'reversed']
+
+
+def arrange(rng, seq, mode):
+    """storage order of a list given in ascending-id order"""
+    seq = list(seq)
+    n = len(seq)
+    if mode == 'shuffled':
+        rng.shuffle(seq)
+    elif mode == 'reversed':
+        seq.reverse()
+    elif mode == 'ends-fixed' and n > 3:      # first and last in place, interior shuffled
+        mid = seq[1:-1]
+        rng.shuffle(mid)
+        seq = [seq[0]] + mid + [seq[-1]]
+    elif mode == 'swap2' and n > 1:           # two neighbours swapped
+        k = rng.randrange(n - 1)
+        seq[k], seq[k + 1] = seq[k + 1], seq[k]
+    elif mode == 'move1' and n > 2:           # one id moved elsewhere
+        x = seq.pop(rng.randrange(n))
+        seq.insert(rng.randrange(n), x)
+    return seq
+
+
+def label(b, rng, id_mode, shuffle_nodes=True, shuffle_elems=True, n_unref=0, block_order=None,
+          node_order=None, elem_order=None, unref_at=None):
+    """assign ids and storage orders -> mesh dict.
+    id modes: seq (1..n), dense-offset (a..a+n-1), sparse, large (>= 2^31);
+    storage orders: see ORDERS (relative to ascending id); unreferenced nodes get
+    the smallest / middle / largest ids of a dense numbering (unref_at)."""
+    n_ref = len(b.coords)
     for u in range(n_unref):
         b.node((1000 + 2 * u, 999, 777))
     n = len(b.coords)
-    if id_mode == 'seq':
-        nid = list(range(1, n + 1))
+    node_order = node_order or ('shuffled' if shuffle_nodes else 'sorted')
+    elem_order = elem_order or ('shuffled' if shuffle_elems else 'sorted')
+    if id_mode in ('seq', 'dense-offset'):
+        a = 1 if id_mode == 'seq' else rng.choice([0, 2, 1000, 10 ** 6 + 1])
+        idx = list(range(n_ref))
+        un = list(range(n_ref, n))
+        pos = {'first': 0, 'middle': n_ref // 2}.get(unref_at, n_ref)
+        idx = idx[:pos] + un + idx[pos:]
+        nid = [None] * n
+        for k, q in enumerate(idx):
+            nid[q] = a + k
     elif id_mode == 'sparse':
         nid = rng.sample(range(1, 20 * n + 50), n)
     else:  # large
         base = 2 ** 31 + rng.randrange(10 ** 6)
         nid = [base + v for v in rng.sample(range(0, 50 * n + 50), n)]
-    order = list(range(n))
-    if shuffle_nodes:
-        rng.shuffle(order)
+    order = arrange(rng, sorted(range(n), key=lambda q: nid[q]), node_order)
     nodes = [[nid[q]] + list(b.coords[q]) for q in order]
     ne = len(b.cells)
-    if id_mode == 'seq':
-        eid = list(range(1, ne + 1))
-        if shuffle_elems:
-            rng.shuffle(eid)      # ids are a permutation of 1..n, scattered over types
+    if id_mode in ('seq', 'dense-offset'):
+        a = 1 if id_mode == 'seq' else rng.choice([0, 5, 1000, 10 ** 6 + 1])
+        eid = list(range(a, a + ne))
+        if elem_order == 'shuffled':
+            rng.shuffle(eid)      # ids are a permutation, scattered over the types
     elif id_mode == 'sparse':
         eid = rng.sample(range(1, 20 * ne + 50), ne)
     else:
@@ -181,16 +217,12 @@ def label(b, rng, id_mode, shuffle_nodes=True, shuffle_elems=True, n_unref=0, bl
         rng.shuffle(keys)
     out = []
     for t in keys:
-        rows = blocks[t]
-        if shuffle_elems:
-            rng.shuffle(rows)
-        else:
-            rows.sort()
-        out.append([t, rows])
+        out.append([t, arrange(rng, sorted(blocks[t]), elem_order)])
     return {'nodes': nodes, 'blocks': out}
 
 
-KINDS = ['tri', 'quad', 'mixed2d', 'tet', 'hex', 'mixed3d', 'tet2', 'hex2', 'mixed3d2']
+KINDS = ['tri', 'quad', 'mixed2d', 'tet', 'hex', 'mixed3d', 'tet2', 'hex2', 'mixed3d2',
+         'prism', 'pyr']
 # connectivity-only kinds (geometry is NOT consistent: graph matrices only):
 # second-order elements that touch only at a mid-side node, and a first-order
 # element hanging on a second-order edge
@@ -252,18 +284,19 @@ def gen_nonconforming(rng, kind):
 
 def gen_mesh(rng, kind=None, max_nodes=26, id_mode=None, components=None, n_unref=None):
     kind = kind or rng.choice(KINDS + ['mixed2d', 'mixed3d', 'mixed3d', 'mixed3d2'])
-    id_mode = id_mode or rng.choice(['seq', 'sparse', 'sparse', 'large'])
+    id_mode = id_mode or rng.choice(['seq', 'seq', 'dense-offset', 'sparse', 'sparse', 'large'])
+    node_order = rng.choice(ORDERS)
+    elem_order = rng.choice(ORDERS)
+    unref_at = rng.choice(['first', 'middle', 'last'])
     components = components if components is not None else rng.choice([1, 1, 1, 2, 3])
     if n_unref is None:
         n_unref = rng.choice([0, 0, 0, 1, 2])
     if kind in NONCONFORMING:
         b = gen_nonconforming(rng, kind)
-        shuffle_nodes = rng.random() < 0.8
-        shuffle_elems = rng.random() < 0.8
-        m = label(b, rng, id_mode, shuffle_nodes, shuffle_elems, 0,
-                  block_order=rng.choice(['first-seen', 'shuffled']))
+        m = label(b, rng, id_mode, n_unref=0, block_order=rng.choice(['first-seen', 'shuffled']),
+                  node_order=node_order, elem_order=elem_order)
         m['tags'] = {'kind': kind, 'ids': id_mode, 'components': 1, 'unref': 'glued-away',
-                     'shuffle_nodes': shuffle_nodes, 'shuffle_elems': shuffle_elems,
+                     'node_order': node_order, 'elem_order': elem_order,
                      'n_types': len(m['blocks'])}
         return m
     for _ in range(200):
@@ -271,11 +304,14 @@ def gen_mesh(rng, kind=None, max_nodes=26, id_mode=None, components=None, n_unre
         for comp in range(components):
             org = (20 * comp, 6 * comp, 0)
             lo = 2 if kind.startswith('mixed') and comp == 0 else 1
+            if kind in ('prism', 'pyr'):
+                lo = 1
             if kind in ('tri', 'quad', 'mixed2d'):
                 grid2d(b, rng, rng.randint(lo, 3), rng.randint(1, 2), kind, org)
             else:
                 base = {'tet': 'tet', 'hex': 'hex', 'mixed3d': 'mixed3d', 'tet2': 'tet',
-                        'hex2': 'hex', 'mixed3d2': 'mixed3d', 'mixed3dv': 'mixed3dv'}[kind]
+                        'hex2': 'hex', 'mixed3d2': 'mixed3d', 'mixed3dv': 'mixed3dv',
+                        'prism': 'prism', 'pyr': 'pyr'}[kind]
                 grid3d(b, rng, rng.randint(lo, 2), rng.randint(1, 2), 1, base, org)
         if kind in ('tet2', 'hex2', 'mixed3d2'):
             to_second_order(b, rng, rng.choice([1.0, 1.0, 0.5]) if kind != 'mixed3d2' else
@@ -290,12 +326,10 @@ def gen_mesh(rng, kind=None, max_nodes=26, id_mode=None, components=None, n_unre
             grid3d(b, rng, 1, 1, 1, {'tet2': 'tet', 'hex2': 'hex', 'mixed3d2': 'mixed3d'}.get(kind, kind))
             if kind in ('tet2', 'hex2', 'mixed3d2'):
                 to_second_order(b, rng)
-    shuffle_nodes = rng.random() < 0.8
-    shuffle_elems = rng.random() < 0.8
-    m = label(b, rng, id_mode, shuffle_nodes, shuffle_elems, n_unref,
-              block_order=rng.choice(['first-seen', 'shuffled']))
+    m = label(b, rng, id_mode, n_unref=n_unref, block_order=rng.choice(['first-seen', 'shuffled']),
+              node_order=node_order, elem_order=elem_order, unref_at=unref_at)
     m['tags'] = {'kind': kind, 'ids': id_mode, 'components': components, 'unref': n_unref,
-                 'shuffle_nodes': shuffle_nodes, 'shuffle_elems': shuffle_elems,
+                 'node_order': node_order, 'elem_order': elem_order, 'unref_at': unref_at,
                  'n_types': len(m['blocks'])}
     return m
 
